@@ -134,6 +134,21 @@ func traverseAll(r *Run, pj *simdjson.ParsedJson, what string) bool {
 				a2 = *arr
 				a2.AsStringCvt()
 				arr.Interface()
+				// the bulk accessors consume the Array: call them one after the other on the same value, too
+				a3 := *arr
+				a3.AsFloat()
+				a3.AsString()
+				a3.AsInteger()
+				a3.AsStringCvt()
+				a3.AsUint64()
+				a3.Interface()
+				a3.MarshalJSON()
+				a3.FirstType()
+				a4 := *arr
+				a4.AsUint64()
+				a4.AsStringCvt()
+				a4.ForEach(func(i simdjson.Iter) { i.Interface() })
+				a4.DeleteElems(func(i simdjson.Iter) bool { return false })
 			}
 		}
 		return nil
